@@ -899,3 +899,9 @@ fn validate_connack_properties(props: &[Property]) -> Result<(), MqttError> {
     }
     Ok(())
 }
+
+#[cfg(all(feature = "verif-hooks", kani))]
+#[allow(dead_code, unused)]
+pub(crate) mod verif_harness {
+    include!(concat!(env!("VERIF_HARNESS_DIR"), "/v5_connack_h.rs"));
+}
